@@ -94,15 +94,36 @@ pub struct BfsResult {
     pub steps: u64,
     pub agree_completions: u64,
     pub known: HashMap<&'static str, u64>,
+    /// order-independent fingerprint of the SET of known divergent steps per key, over the
+    /// reference side only (position, alive signatures, excuse mask, input byte or end of input):
+    /// a change that makes the matcher diverge at other steps changes it
+    pub known_fp: HashMap<&'static str, u64>,
+    /// distinct reference-side steps per key (independent of the matcher's internal state numbering)
+    pub known_set: HashMap<&'static str, HashSet<u64>>,
     pub violations: Vec<(Vec<u8>, String)>,
     pub witnesses: Vec<(Vec<u8>, &'static str)>,
     pub max_depth: usize,
 }
 
+fn fp_step(q: usize, alive: u32, excuse: u32, sym: u16) -> u64 {
+    let mut v = Vec::with_capacity(16);
+    v.extend_from_slice(&(q as u32).to_le_bytes());
+    v.extend_from_slice(&alive.to_le_bytes());
+    v.extend_from_slice(&excuse.to_le_bytes());
+    v.extend_from_slice(&sym.to_le_bytes());
+    fnv(&v).wrapping_mul(0x9e37_79b9_7f4a_7c15)
+}
+
+/// the key under which a known divergence class of the product is reported: class name, number
+/// of divergent steps and the fingerprint of their set (KNOWN_FINDINGS.txt lists exactly this)
+pub fn product_key(k: &str, n: u64, fp: u64) -> String {
+    format!("{}@{}:{:08x}", k, n, (fp ^ (fp >> 32)) as u32)
+}
+
 pub fn product_bfs() -> BfsResult {
     let sigs = signatures();
     let no_match = hook_id("NO_MATCH");
-    let mut res = BfsResult { states: 0, steps: 0, agree_completions: 0, known: HashMap::new(), violations: vec![], witnesses: vec![], max_depth: 0 };
+    let mut res = BfsResult { states: 0, steps: 0, agree_completions: 0, known: HashMap::new(), known_fp: HashMap::new(), known_set: HashMap::new(), violations: vec![], witnesses: vec![], max_depth: 0 };
     let init = PState { q: 0, alive: (1u32 << sigs.len()) - 1, ms: 0, excuse: 0 };
     let mut seen: HashSet<PState> = HashSet::new();
     let mut queue: VecDeque<(PState, Vec<u8>)> = VecDeque::new();
@@ -141,6 +162,7 @@ pub fn product_bfs() -> BfsResult {
                     let all_excused = sigs.iter().enumerate().filter(|(x, sg)| s.alive & (1 << x) != 0 && sg.end_anchored && sg.pat.len() == s.q).all(|(x, _)| s.excuse & (1 << x) != 0);
                     if all_excused {
                         *res.known.entry("wildcard-shadowing").or_insert(0) += 1;
+                        res.known_set.entry("wildcard-shadowing").or_default().insert(fp_step(s.q, s.alive, s.excuse, 256));
                     } else {
                         res.violations.push((path.clone(), format!("end of input after {} bytes: reference completes {:?}, matcher reports nothing", s.q, want)));
                     }
@@ -150,6 +172,7 @@ pub fn product_bfs() -> BfsResult {
                         res.violations.push((path.clone(), format!("matcher reports unknown id {} at end of input", id)));
                     } else if want.is_empty() && eoi_wild.contains(&p) {
                         *res.known.entry("eoi-as-wildcard").or_insert(0) += 1;
+                        res.known_set.entry("eoi-as-wildcard").or_default().insert(fp_step(s.q, s.alive, s.excuse, 256));
                     } else {
                         res.violations.push((path.clone(), format!("end of input after {} bytes: matcher reports {:?}, reference completes {:?}", s.q, p, want)));
                     }
@@ -206,6 +229,7 @@ pub fn product_bfs() -> BfsResult {
                     None => {
                         if done.iter().all(|x| excuse2 & (1 << x) != 0) {
                             *res.known.entry("wildcard-shadowing").or_insert(0) += 1;
+                            res.known_set.entry("wildcard-shadowing").or_default().insert(fp_step(s.q, s.alive, excuse2, b as u16));
                         } else {
                             res.violations.push((path2.clone(), format!("leading bytes complete {:?} but the matcher reports nothing", done.iter().map(|x| sigs[*x].name).collect::<Vec<_>>())));
                         }
@@ -227,6 +251,10 @@ pub fn product_bfs() -> BfsResult {
         if res.violations.len() > 64 {
             break;
         }
+    }
+    for (k, set) in &res.known_set {
+        let fp = set.iter().fold(0u64, |a, x| a.wrapping_add(*x));
+        res.known_fp.insert(k, fp);
     }
     res
 }
@@ -691,8 +719,9 @@ impl Prop for C10 {
             // divergences that carry a known-finding key: reported as KNOWN-FINDING iff the key is
             // listed in KNOWN_FINDINGS.txt, as a violation otherwise (judge decides)
             for (k, n) in &r.known {
-                let case = json!({"key": k, "divergent_steps": n});
-                ctx.run_one("product", &case, Err(Failure::keyed(*k, format!("{} divergent (state, byte) steps in the product of reference automaton and compiled matcher", n))));
+                let key = product_key(k, r.known_set.get(k).map(|x| x.len() as u64).unwrap_or(0), r.known_fp.get(k).cloned().unwrap_or(0));
+                let case = json!({"key": key, "divergent_steps": n});
+                ctx.run_one("product", &case, Err(Failure::keyed(key.clone(), format!("{} divergent (state, byte) steps in the product of reference automaton and compiled matcher (class {}; the set of steps is identified by the key {})", n, k, key))));
             }
             for (path, msg) in r.violations.iter().take(4) {
                 let case = json!({"path": hex(path)});
@@ -715,7 +744,8 @@ impl Prop for C10 {
             "product" => {
                 let r = product_bfs();
                 for (k, n) in &r.known {
-                    let _ = st.judge(Err(Failure::keyed(*k, format!("{} divergent (state, byte) steps in the product", n))));
+                    let key = product_key(k, r.known_set.get(k).map(|x| x.len() as u64).unwrap_or(0), r.known_fp.get(k).cloned().unwrap_or(0));
+                    let _ = st.judge(Err(Failure::keyed(key, format!("{} divergent (state, byte) steps in the product", n))));
                 }
                 match r.violations.first() {
                     Some((p, m)) => Err(Failure::new(format!("after bytes {}: {}", hex(p), m))),
